@@ -224,7 +224,7 @@ def _native_eval(name, kind, x, y, canary, scale):
 # oracle for path feasibility
 # ----------------------------------------------------------------------------
 class Oracle:
-    def __init__(self, pool, smt_timeout_ms=3000):
+    def __init__(self, pool, smt_timeout_ms=800):
         self.pool = pool
         self.smt_timeout_ms = smt_timeout_ms
         self.stats = dict(cert=0, sample=0, smt=0, smt_unknown=0)
@@ -245,7 +245,7 @@ class Oracle:
             t = _cmp_from_sign(q.op, normal.quick_sign(d))
             if t is None:
                 try:
-                    t = normal.certify_cmp(q)
+                    t = normal.certify_cmp(q, factor=False)
                 except Exception:
                     t = None
             if t is not None:
@@ -317,6 +317,9 @@ def _numeric_check(o, pts):
     return None
 
 
+DEADLINE = {'t': None}
+
+
 def discharge(o, hyps, pool, budget_ms=20000):
     """-> dict(status, backend, seconds, witness, detail)"""
     t0 = time.time()
@@ -351,6 +354,18 @@ def discharge(o, hyps, pool, budget_ms=20000):
         goal = o.lhs
     else:
         goal = core.cmp('le' if o.kind == 'le' else 'lt', o.lhs, o.rhs)
+    hyp_ids = set()
+    stack = list(hyps)
+    while stack:
+        h = stack.pop()
+        hyp_ids.add(h.id)
+        if h.op == 'and':
+            stack.extend(h.args)
+    if goal.id in hyp_ids:
+        return dict(status='proved', backend='hypothesis', seconds=time.time() - t0, witness=None, detail='')
+    if goal.op in ('le', 'ge') and _order_closure(hyp_ids, goal):
+        return dict(status='proved', backend='hypothesis/transitivity', seconds=time.time() - t0, witness=None,
+                    detail='')
     if goal.op in ('lt', 'le', 'gt', 'ge', 'eq', 'ne'):
         d = core.sub(goal.args[0], goal.args[1])
         t = _cmp_from_sign(goal.op, normal.quick_sign(d))
@@ -366,7 +381,13 @@ def discharge(o, hyps, pool, budget_ms=20000):
         if t is False and pts:
             return dict(status='refuted', backend=backend, seconds=time.time() - t0,
                         witness=pts[0], detail='certified false')
-    r = smt.prove(goal, hyps, timeout_ms=budget_ms)
+    if DEADLINE.get('unknowns', 0) >= 8:
+        return dict(status='undecided', backend='budget', seconds=time.time() - t0, witness=None,
+                    detail='SMT back end skipped: 8 earlier obligations of this contract run already came back unknown')
+    if DEADLINE['t'] is not None and time.time() > DEADLINE['t']:
+        return dict(status='undecided', backend='budget', seconds=time.time() - t0, witness=None,
+                    detail='contract time budget exhausted before this obligation reached the SMT back end')
+    r = smt.prove(goal, hyps, timeout_ms=budget_ms, external=budget_ms >= 15000)
     if r['status'] == 'proved':
         return dict(status='proved', backend=r['backend'], seconds=time.time() - t0, witness=None, detail='')
     if r['status'] == 'refuted':
@@ -376,8 +397,33 @@ def discharge(o, hyps, pool, budget_ms=20000):
             w = Point('smtmodel', base)
         return dict(status='refuted', backend=r['backend'], seconds=time.time() - t0, witness=w,
                     detail='SMT counter-model')
+    DEADLINE['unknowns'] = DEADLINE.get('unknowns', 0) + 1
     return dict(status='undecided', backend=r['backend'], seconds=time.time() - t0, witness=None,
                 detail='solver returned unknown')
+
+
+def _order_closure(hyp_ids, goal):
+    """goal a <= b by transitivity over the <= / < / == facts among the hypotheses"""
+    a, b = goal.args if goal.op == 'le' else (goal.args[1], goal.args[0])
+    succ = {}
+    for hid in hyp_ids:
+        h = core.CTX.nodes[hid]
+        if h.op in ('le', 'lt', 'eq'):
+            succ.setdefault(h.args[0].id, set()).add(h.args[1].id)
+            if h.op == 'eq':
+                succ.setdefault(h.args[1].id, set()).add(h.args[0].id)
+        elif h.op in ('ge', 'gt'):
+            succ.setdefault(h.args[1].id, set()).add(h.args[0].id)
+    seen, stack = {a.id}, [a.id]
+    while stack:
+        x = stack.pop()
+        if x == b.id:
+            return True
+        for y in succ.get(x, ()):
+            if y not in seen:
+                seen.add(y)
+                stack.append(y)
+    return False
 
 
 def check_divisions(div_seen, assume, pool):
@@ -421,7 +467,7 @@ class ContractRun:
         self.exits = []
 
 
-def run_symbolic(contract, cfg, modules, seed=0, pool_size=6, max_paths=64, budget_ms=20000):
+def run_symbolic(contract, cfg, modules, seed=0, pool_size=6, max_paths=64, budget_ms=4000, time_cap_s=240):
     """returns ContractRun"""
     name = getattr(contract, 'cname', contract.__name__) + _cfgtag(cfg)
     run = ContractRun(name)
@@ -448,6 +494,8 @@ def run_symbolic(contract, cfg, modules, seed=0, pool_size=6, max_paths=64, budg
         return run, S, pool
     run.notes = list(S.notes)
     assume = list(core.CTX.assume)
+    DEADLINE['t'] = time.time() + time_cap_s
+    DEADLINE['unknowns'] = 0
     for pi, (pc, out) in enumerate(per_path):
         run.paths.append(dict(index=pi, decisions=len(pc), outcome=out[0],
                               pc=[core.show(c, 3) for c in pc[:12]]))
